@@ -224,23 +224,73 @@ def _check_calls(prog: Program, res: Result):
     if len(grid) != 1:
         raise AnalysisError(f"{q}: grid generator call not found")
     defs = {s.targets[0].id: s.value for s in ast.walk(fi.node) if isinstance(s, ast.Assign) and len(s.targets) == 1 and isinstance(s.targets[0], ast.Name)}
+    # tuple unpackings  a, b = <expr>  ->  name: (position, expr)
+    unpack = {}
+    for s in ast.walk(fi.node):
+        if isinstance(s, ast.Assign) and len(s.targets) == 1 and isinstance(s.targets[0], ast.Tuple):
+            for k_, e_ in enumerate(s.targets[0].elts):
+                if isinstance(e_, ast.Name):
+                    unpack[e_.id] = (k_, s.value)
     a0, a1 = grid[0].args[0], grid[0].args[1]
 
-    def is_max_of(node, axis):
+    def is_max_of_axis(node, axis_pos):
+        """node is max(<coordinate list of axis axis_pos of zip(*R)>) with R = determine_largest_rectangle(property_boundary)"""
         v = defs.get(node.id) if isinstance(node, ast.Name) else node
-        return isinstance(v, ast.Call) and attr_chain(v.func) == "max" and len(v.args) == 1 and ast.unparse(v.args[0]) == axis
+        if not (isinstance(v, ast.Call) and attr_chain(v.func) == "max" and len(v.args) == 1 and isinstance(v.args[0], ast.Name)):
+            return False
+        u = unpack.get(v.args[0].id)
+        if u is None or u[0] != axis_pos:
+            return False
+        z = u[1]
+        while isinstance(z, ast.Call) and attr_chain(z.func) in ("list", "tuple") and len(z.args) == 1:
+            z = z.args[0]
+        if not (isinstance(z, ast.Call) and attr_chain(z.func) == "zip" and len(z.args) == 1 and isinstance(z.args[0], ast.Starred)):
+            return False
+        r = z.args[0].value
+        r = defs.get(r.id) if isinstance(r, ast.Name) else r
+        return isinstance(r, ast.Call) and attr_chain(r.func) == "determine_largest_rectangle" and len(r.args) == 1 and ast.unparse(r.args[0]) == "property_boundary"
 
-    ok = is_max_of(a0, "x") and is_max_of(a1, "y") and "zip(*outer_rectangle)" in ast.unparse(fi.node) and "determine_largest_rectangle(property_boundary)" in ast.unparse(fi.node)
+    ok = is_max_of_axis(a0, 0) and is_max_of_axis(a1, 1)
     res.ob("R04.5", "the grid spans (max x, max y) of the bounding rectangle of all property outlines", ok, prog.loc(fi, grid[0]))
     if not ok:
-        res.violation("R04.5", f"grid-extent|{ast.unparse(a0)}|{ast.unparse(a1)}", prog.loc(fi, grid[0]), q, f"the candidate grid is generated for ({ast.unparse(a0)}, {ast.unparse(a1)}) instead of the property's bounding rectangle")
+        res.violation("R04.5", f"grid-extent|{ast.unparse(defs.get(a0.id, a0) if isinstance(a0, ast.Name) else a0)[:40]}|{ast.unparse(defs.get(a1.id, a1) if isinstance(a1, ast.Name) else a1)[:40]}", prog.loc(fi, grid[0]), q,
+                      f"the candidate grid is generated for ({ast.unparse(a0)}, {ast.unparse(a1)}) instead of (max x, max y) of the property's bounding rectangle")
     dl = prog.func(f"{FR}.determine_largest_rectangle")
     res.analysed(dl.qualname)
-    txt = ast.unparse(dl.node)
-    ok = "x_max = max(x, x_max)" in txt and "y_max = max(y, y_max)" in txt and "x_min = min(x, x_min)" in txt and "y_min = min(y, y_min)" in txt
-    res.ob("R04.5", "the bounding rectangle takes max / min of x and y over every outline", ok, prog.loc(dl, dl.node))
+    # accumulators  A = max|min(<coordinate k of every vertex of every outline>, A)
+    acc = {}  # (func, axis) -> accumulator name
+    for lp in ast.walk(dl.node):
+        if isinstance(lp, ast.For) and isinstance(lp.target, ast.Tuple) and len(lp.target.elts) == 2 and all(isinstance(e_, ast.Name) for e_ in lp.target.elts):
+            # the vertex loop must run over an element of an outer loop over the parameter (every outline)
+            outer = next((o for o in ast.walk(dl.node) if isinstance(o, ast.For) and o is not lp and any(lp is x for x in ast.walk(o))), None)
+            every = outer is not None and isinstance(outer.target, ast.Name) and ast.unparse(lp.iter) == outer.target.id and ast.unparse(outer.iter) == dl.params()[0]
+            if not every:
+                continue
+            axis = {lp.target.elts[0].id: 0, lp.target.elts[1].id: 1}
+            for s in lp.body:
+                if isinstance(s, ast.Assign) and len(s.targets) == 1 and isinstance(s.targets[0], ast.Name) and isinstance(s.value, ast.Call) and attr_chain(s.value.func) in ("max", "min") and len(s.value.args) == 2:
+                    names = [a.id for a in s.value.args if isinstance(a, ast.Name)]
+                    t = s.targets[0].id
+                    if len(names) == 2 and t in names:
+                        other = names[0] if names[1] == t else names[1]
+                        if other in axis:
+                            acc[(attr_chain(s.value.func), axis[other])] = t
+    ok = set(acc) == {("max", 0), ("max", 1), ("min", 0), ("min", 1)}
+    if ok:
+        # the returned rectangle has a vertex with x = max-x accumulator and one with y = max-y accumulator
+        rets = [r for r in ast.walk(dl.node) if isinstance(r, ast.Return) and r.value is not None]
+        ok = False
+        if len(rets) == 1:
+            rv = rets[0].value
+            if isinstance(rv, ast.Name):
+                rv = next((s.value for s in ast.walk(dl.node) if isinstance(s, ast.Assign) and len(s.targets) == 1 and isinstance(s.targets[0], ast.Name) and s.targets[0].id == rv.id), rv)
+            if isinstance(rv, (ast.List, ast.Tuple)) and all(isinstance(e_, (ast.List, ast.Tuple)) and len(e_.elts) == 2 for e_ in rv.elts):
+                xs = {ast.unparse(e_.elts[0]) for e_ in rv.elts}
+                ys = {ast.unparse(e_.elts[1]) for e_ in rv.elts}
+                ok = xs == {acc[("max", 0)], acc[("min", 0)]} and ys == {acc[("max", 1)], acc[("min", 1)]}
+    res.ob("R04.5", "the bounding rectangle takes max / min of x and y over every vertex of every outline and returns those corners", ok, prog.loc(dl, dl.node))
     if not ok:
-        res.violation("R04.5", "bounding-rectangle", prog.loc(dl, dl.node), dl.qualname, "determine_largest_rectangle no longer accumulates max(x), max(y), min(x), min(y) over all outlines")
+        res.violation("R04.5", "bounding-rectangle", prog.loc(dl, dl.node), dl.qualname, "determine_largest_rectangle no longer accumulates max(x), max(y), min(x), min(y) over all outlines into the corners it returns")
 
 
 def _check_codes(prog: Program, res: Result):
@@ -282,7 +332,16 @@ def _check_codes(prog: Program, res: Result):
                 if isinstance(n, ast.If) and any(r is x for b_ in n.body for x in ast.walk(b_)):
                     guard = n
             t = ast.unparse(guard.test) if guard is not None else ""
-            ok = ("on_edge_tolerance" in t and "<" in t) or t.replace(" ", "") in ("c==0", "c==0.0")
+            ok = "on_edge_tolerance" in t and "<" in t
+            gt = guard.test if guard is not None else None
+            if not ok and isinstance(gt, ast.Compare) and len(gt.ops) == 1 and isinstance(gt.ops[0], ast.Eq) and isinstance(gt.left, ast.Name) \
+                    and isinstance(gt.comparators[0], ast.Constant) and gt.comparators[0].value == 0:
+                # <name> == 0 with <name> a cross product  a * b - c * d
+                ok = any(isinstance(s_, ast.Assign) and len(s_.targets) == 1 and isinstance(s_.targets[0], ast.Name) and s_.targets[0].id == gt.left.id
+                         and isinstance(s_.value, ast.BinOp) and isinstance(s_.value.op, ast.Sub)
+                         and isinstance(s_.value.left, ast.BinOp) and isinstance(s_.value.left.op, ast.Mult)
+                         and isinstance(s_.value.right, ast.BinOp) and isinstance(s_.value.right.op, ast.Mult) for s_ in ast.walk(fi.node))
+                t = "<cross product> == 0" if ok else t
             res.ob("R04.3", f"code 0 is returned on an on-edge exit ({t})", ok, prog.loc(fi, r))
             if not ok:
                 res.violation("R04.3", f"zero-exit|{t}", prog.loc(fi, r), q, f"code 0 (on edge) is returned under '{t}', which is not an on-edge condition")
